@@ -61,6 +61,13 @@ func (k *KeepSvc) Keep(req *[]byte, res *[]byte) error {
 	return nil
 }
 
+// Echo keeps its argument bytes and answers with the very same slice.
+func (k *KeepSvc) Echo(req *[]byte, res *[]byte) error {
+	k.r.keep("request-args", *req)
+	*res = *req
+	return nil
+}
+
 // KeepCtx is the with-context shape.
 func (k *KeepSvc) KeepCtx(ctx context.Context, req *[]byte, res *[]byte) error {
 	return k.Keep(req, res)
@@ -173,6 +180,19 @@ func runBuf(work, prop string) {
 				bs = part
 			}
 			trafficOver(e, conn, ret, enc, desc, bs, true, &errs, &errWant)
+		}
+		// an echoing handler: its reply IS the argument it keeps (large ones go through the big buffers)
+		for _, n := range []int{600, 66000, 69632, 140000} {
+			req := make([]byte, n)
+			e.Rng.Read(req)
+			req[0] = 'q'
+			var res []byte
+			if err := conn.Call("K.Echo", &req, &res); err != nil {
+				e.fail("C01-call-failed", fmt.Sprintf("call failed: %v", err), desc)
+			} else if !bytes.Equal(res, req) {
+				e.fail("C01-wrong-reply", "echo differs from what was sent", desc)
+			}
+			e.count("traffic", fmt.Sprintf("echo-%s-%s", enc, lenClass(n)))
 		}
 		// stream messages
 		st, err := conn.NewStream("K.Chat")
